@@ -54,6 +54,7 @@ type Sched struct {
 	// Snapshots counts runtime.Stack snapshots taken (evidence).
 	Snapshots int64
 	active    bool
+	open      func(name string) bool
 	// LastDump is the last goroutine dump seen by Quiesce (for diagnostics).
 	LastDump string
 	// LastBusy describes the goroutine that most recently kept Quiesce waiting.
@@ -83,10 +84,30 @@ func (s *Sched) Deactivate() {
 	}
 }
 
+// Open makes every gate whose name satisfies pred pass through from now on and releases the goroutines
+// parked at such gates (staged teardown: e.g. let the plotter run out while calls stay parked).
+func (s *Sched) Open(pred func(name string) bool) {
+	s.mu.Lock()
+	s.open = pred
+	var keep, rel []*gate
+	for _, g := range s.parked {
+		if pred(g.name) {
+			rel = append(rel, g)
+		} else {
+			keep = append(keep, g)
+		}
+	}
+	s.parked = keep
+	s.mu.Unlock()
+	for _, g := range rel {
+		close(g.release)
+	}
+}
+
 // Gate parks the calling goroutine until Release(name) (no-op when inactive).
 func (s *Sched) Gate(name string) {
 	s.mu.Lock()
-	if !s.active {
+	if !s.active || (s.open != nil && s.open(name)) {
 		s.mu.Unlock()
 		return
 	}
